@@ -235,6 +235,14 @@ def main():
                               'if u < 0 { "q"; }', 'if 3 { "q"; }', 'x = [(x == 1) + (x == 2)];', 'if x << 1 { "q"; }', 'x = [0 - 2147483648];',
                               'u = [0 - 1];', 'x = [x * 0];', 'if x / 1 == x { "q"; }', 'x = [1 - -1];']):
         progs.append({"name": f"const-corner-{k}", "src": decl + 'parser { "a"; ' + stmt + ' "z"; }\n', "args": [], "feats": {}, "origin": "const-corner"})
+    # every binary operator as the left and as the right operand of every other one, over variables: the emitted text has to
+    # keep the grouping explicit enough for -Wparentheses / -Wshift-op-parentheses (and mean the same, which C14 checks)
+    ops = ["+", "-", "*", "/", "%", "<<", ">>", "&", "|", "^"]
+    for k, outer in enumerate(ops):
+        stmts = " ".join(f"x = [y {outer} (z {inner} w)]; x = [(y {inner} z) {outer} w];" for inner in ops)
+        conds = " ".join(f'if (y {outer} z) {cmp} (z {outer} w) {{ x = 1; }}' for cmp in ("==", "<", ">=", "!="))
+        progs.append({"name": f"op-nesting-{k}", "src": "out int x;\nout int y;\nout int z;\nout int w;\nparser { \"a\"; " + stmts + " " + conds + ' "z"; }\n',
+                      "args": [], "feats": {}, "origin": "op-nesting"})
     # start-up actions (nothing has been read yet): what is accepted there has to compile as part of start()
     for k, body in enumerate(['if $last == 65 { x = 1; } "a";', 'x = [$last]; "a";', 'if x == 0 { u = 2; } else { u = 3; } "a";',
                               'optional { "q"; } if $last == 1 { x = 1; } "a";', 's += [$last]; "a";', 's = "ab"; if s[0] == 97 { x = 1; } "a";',
